@@ -1,2 +1,253 @@
-(* Props/C05.v — under construction *)
-From SV Require Import Base.Prelude.
+(* Props/C05.v — property C05: fusing is an exact, invertible re-indexing
+   described by the fused index.  Statements only; proofs live in
+   Proofs/FuseProofs.v (with Proofs/OrderProofs.v and Proofs/FuseTensor.v).
+
+   What is proved here, for every symmetry G with GroupLaws G and OrderLaws G
+   (cltb G is a strict total order; shown for the five built-in symmetries),
+   every ring, all ranks, all tables:
+
+   A. the tables of the fused index of one non-singlet group (calc_fuse_block_info):
+      chargemap strictly sorted with valid charges and positive sizes (A1); extent
+      keys = chargemap charges, no repetition (A2); for each fused charge the
+      sub-sector sizes sum to the fused size, sub-sectors strictly sorted, each is
+      the sub-sector of a stored sector, its size is the product of the sub-index
+      sizes, its signed combination (relative to the direction of the group's
+      first axis) is the fused charge (A3), every stored sector is recorded
+      (A3_complete); fused direction = first axis (A4); wf_index of the result.
+   B. starts_from / sub_range give pairwise disjoint ranges inside [0, total)
+      that cover it: every offset lies in exactly one sub-sector range.
+   C. one group of >= 2 distinct axes (any order, non-adjacent allowed) of a
+      wf_array: where the elements land (layout), and unfuse (fuse x) = x with axes
+      permuted by fuse_perm: every stored block bit for bit, every extra block
+      exactly zero, equal coordinate semantics.
+
+   Partial (see the _full definitions at the end): several groups at once,
+   singlet / empty groups through a_fuse, nested (already fused) axes through
+   a_unfuse_all, the concat strategy and the fermionic signs are not covered. *)
+From SV Require Import Base.Prelude Base.Sym Base.Tensor Model.Sectors Model.Array Model.Wf
+  Model.SymInst Proofs.OrderProofs Proofs.FuseTensor Proofs.FuseProofs.
+From Coq Require Import Permutation Sorting.
+Local Open Scope nat_scope.
+
+(* the order axioms on charge labels hold for the five built-in symmetries *)
+Theorem C05_Z2_order : OrderLaws Z2.     Proof. exact Z2_order. Qed.
+Theorem C05_Z4_order : OrderLaws Z4.     Proof. exact Z4_order. Qed.
+Theorem C05_U1_order : OrderLaws U1.     Proof. exact U1_order. Qed.
+Theorem C05_Z2Z2_order : OrderLaws Z2Z2. Proof. exact Z2Z2_order. Qed.
+Theorem C05_U1U1_order : OrderLaws U1U1. Proof. exact U1U1_order. Qed.
+
+(* ---- A: table-level bookkeeping of the fused index ---- *)
+Theorem C05_fused_chargemap_sorted : forall G : Symmetry, GroupLaws G -> OrderLaws G ->
+  forall (ixs : list (index G)) (secs : list (list (C G))) (g : list nat),
+  tables_ok G ixs -> secs_in_tables G ixs secs g -> is_singlet g = false ->
+  StronglySorted (ltP (cltb G)) (icharges G (fused_index G ixs secs g)) /\
+  Forall (fun p => valid G (fst p) = true /\ 0 < snd p) (chargemap G (fused_index G ixs secs g)).
+Proof. exact stmt_A1. Qed.
+
+Theorem C05_fused_extent_keys : forall G : Symmetry, GroupLaws G -> OrderLaws G ->
+  forall (ixs : list (index G)) (secs : list (list (C G))) (g : list nat),
+  is_singlet g = false ->
+  exists ext, isub G (fused_index G ixs secs g) = Some (map (fun ax => nth ax ixs (dflt_index G)) g, ext) /\
+              NoDup (map fst ext) /\ Permutation (map fst ext) (icharges G (fused_index G ixs secs g)).
+Proof. exact stmt_A2. Qed.
+
+Theorem C05_fused_extents_partition : forall G : Symmetry, GroupLaws G -> OrderLaws G ->
+  forall (ixs : list (index G)) (secs : list (list (C G))) (g : list nat),
+  tables_ok G ixs -> secs_in_tables G ixs secs g -> is_singlet g = false ->
+  forall c d, In (c, d) (chargemap G (fused_index G ixs secs g)) ->
+    size_of G (fused_index G ixs secs g) c = d /\
+    exists subs ext e, isub G (fused_index G ixs secs g) = Some (subs, ext) /\
+      lookup (ceqb G) c ext = Some e /\
+      nsum (map snd e) = d /\
+      StronglySorted (ltP (list_ltb (cltb G) (ceqb G))) (map fst e) /\ NoDup (map fst e) /\
+      Forall (fun p => exists s, In s secs /\ fst p = group_subsector G s g /\
+                                 snd p = subsizes_product G ixs g s /\
+                                 signed_combination G ixs g s = c) e.
+Proof. exact stmt_A3. Qed.
+
+Theorem C05_fused_extents_complete : forall G : Symmetry, GroupLaws G -> OrderLaws G ->
+  forall (ixs : list (index G)) (secs : list (list (C G))) (g : list nat),
+  secs_in_tables G ixs secs g -> is_singlet g = false ->
+  forall s, In s secs ->
+    exists subs ext e, isub G (fused_index G ixs secs g) = Some (subs, ext) /\
+      In (signed_combination G ixs g s) (icharges G (fused_index G ixs secs g)) /\
+      lookup (ceqb G) (signed_combination G ixs g s) ext = Some e /\
+      lookup (list_eqb (ceqb G)) (group_subsector G s g) e = Some (subsizes_product G ixs g s).
+Proof. exact stmt_A3_complete. Qed.
+
+Theorem C05_fused_dual : forall (G : Symmetry) (ixs : list (index G)) (secs : list (list (C G))) (g : list nat),
+  idual G (fused_index G ixs secs g) = idual G (nth (hd 0 g) ixs (dflt_index G)).
+Proof. exact stmt_A4. Qed.
+
+Theorem C05_fused_index_wf : forall G : Symmetry, GroupLaws G -> OrderLaws G ->
+  forall (ixs : list (index G)) (secs : list (list (C G))) (g : list nat),
+  Forall (fun ix => wf_index G ix = true) ixs -> secs_in_tables G ixs secs g -> 2 <= length g ->
+  wf_index G (fused_index G ixs secs g) = true.
+Proof. exact stmt_wf2. Qed.
+
+(* ---- B: the ranges of accum_for_split partition [0, total) ---- *)
+Theorem C05_ranges_partition : forall (K : Type) (keqb : K -> K -> bool), eqb_spec_on keqb ->
+  forall e : list (K * nat), NoDup (map fst e) ->
+  let ranges := List.combine (map fst e) (List.combine (starts_from 0 (map snd e)) (map snd e)) in
+  (forall k r, lookup keqb k ranges = Some r ->
+     fst r + snd r <= nsum (map snd e) /\ lookup keqb k e = Some (snd r)) /\
+  (forall k, lookup keqb k ranges = None <-> lookup keqb k e = None) /\
+  (forall k1 k2 r1 r2, lookup keqb k1 ranges = Some r1 -> lookup keqb k2 ranges = Some r2 -> k1 <> k2 ->
+     fst r1 + snd r1 <= fst r2 \/ fst r2 + snd r2 <= fst r1) /\
+  (forall o, o < nsum (map snd e) ->
+     exists k r, lookup keqb k ranges = Some r /\ fst r <= o < fst r + snd r) /\
+  (forall o k1 k2 r1 r2, lookup keqb k1 ranges = Some r1 -> lookup keqb k2 ranges = Some r2 ->
+     fst r1 <= o < fst r1 + snd r1 -> fst r2 <= o < fst r2 + snd r2 -> k1 = k2).
+Proof. exact (@ranges_partition). Qed.
+
+Theorem C05_fused_sub_ranges_partition : forall G : Symmetry, GroupLaws G -> OrderLaws G ->
+  forall (ixs : list (index G)) (secs : list (list (C G))) (g : list nat),
+  tables_ok G ixs -> secs_in_tables G ixs secs g -> is_singlet g = false ->
+  forall c d, In (c, d) (chargemap G (fused_index G ixs secs g)) ->
+    exists subs ext e, isub G (fused_index G ixs secs g) = Some (subs, ext) /\
+      lookup (ceqb G) c ext = Some e /\
+      (forall ss, In ss (map fst e) ->
+         fst (sub_range G (fused_index G ixs secs g) c ss) + snd (sub_range G (fused_index G ixs secs g) c ss) <= d /\
+         lookup (list_eqb (ceqb G)) ss e = Some (snd (sub_range G (fused_index G ixs secs g) c ss))) /\
+      (forall ss ss', In ss (map fst e) -> In ss' (map fst e) -> ss <> ss' ->
+         disj (sub_range G (fused_index G ixs secs g) c ss) (sub_range G (fused_index G ixs secs g) c ss')) /\
+      (forall o, o < d -> exists ss, In ss (map fst e) /\
+         fst (sub_range G (fused_index G ixs secs g) c ss) <= o <
+         fst (sub_range G (fused_index G ixs secs g) c ss) + snd (sub_range G (fused_index G ixs secs g) c ss)).
+Proof. exact stmt_B_fused. Qed.
+
+(* ---- tensor level: assignment into zeros and slicing ---- *)
+Theorem C05_get_tassign : forall (R : Ring) (t : tensor R) sel (src : tensor R) idx,
+  inb (tshape t) idx = true ->
+  get R (tassign R t sel src) idx =
+  if in_range sel idx then get R src (map (fun p => snd p - fst (fst p)) (List.combine sel idx)) else get R t idx.
+Proof. exact get_tassign. Qed.
+
+Theorem C05_get_tslice : forall (R : Ring) (t : tensor R) axis start len idx,
+  inb (set_nth (tshape t) axis len) idx = true ->
+  get R (tslice R t axis start len) idx = get R t (set_nth idx axis (nth axis idx 0 + start)).
+Proof. exact get_tslice. Qed.
+
+Theorem C05_assign_into_zeros : forall (R : Ring) sh axis start len (src : tensor R) idx,
+  inb sh idx = true -> axis < length sh ->
+  get R (tassign R (tzeros R sh) (axis_sel sh axis start len) src) idx =
+  if Nat.leb start (nth axis idx 0) && Nat.ltb (nth axis idx 0) (start + len)
+  then get R src (set_nth idx axis (nth axis idx 0 - start)) else r0 R.
+Proof. exact get_tassign_zeros. Qed.
+
+Theorem C05_slice_of_assign_own : forall (R : Ring) (t : tensor R) axis start len (src : tensor R),
+  axis < length (tshape t) -> start + len <= nth axis (tshape t) 0 ->
+  tshape src = set_nth (tshape t) axis len -> length (tdata src) = shape_size (tshape src) ->
+  tslice R (tassign R t (axis_sel (tshape t) axis start len) src) axis start len = src.
+Proof. exact tslice_tassign_same. Qed.
+
+Theorem C05_slice_of_assign_other : forall (R : Ring) (t : tensor R) axis start len start' len' (src : tensor R),
+  axis < length (tshape t) -> start + len <= nth axis (tshape t) 0 ->
+  (start + len <= start' \/ start' + len' <= start) ->
+  tslice R (tassign R t (axis_sel (tshape t) axis start' len') src) axis start len = tslice R t axis start len.
+Proof. exact tslice_tassign_disjoint. Qed.
+
+(* ---- C: one group, value level ---- *)
+Theorem C05_fuse_layout_single_group_partial : forall (G : Symmetry) (R : Ring), GroupLaws G -> OrderLaws G ->
+  forall (x : aarray G R) (g : list nat),
+    wf_array G R x = true -> NoDup g -> Forall (fun ax => ax < ndim G R x) g -> 2 <= length g ->
+    let ixs := indices G R x in
+    let xf := fuse_core G R x [g] in
+    let pos := fuse_position [g] in
+    let fi := fused_index G ixs (sectors G R x) g in
+    NoDup (sectors G R xf) /\
+    (forall k, In k (sectors G R xf) <-> exists s, In s (sectors G R x) /\ fused_sector G ixs [g] s = k) /\
+    (forall k T, lookup (list_eqb (ceqb G)) k (blocks G R xf) = Some T -> tshape T = block_shape G (indices G R xf) k) /\
+    (forall s b, In (s, b) (blocks G R x) ->
+       exists T, lookup (list_eqb (ceqb G)) (fused_sector G ixs [g] s) (blocks G R xf) = Some T /\
+         let r := sub_range G fi (group_charge G ixs s g) (group_subsector G s g) in
+         tslice R T pos (fst r) (snd r) =
+         treshape R (ttranspose R b (fuse_perm (ndim G R x) [g])) (fused_block_shape G ixs [g] s)) /\
+    (forall k T st len, lookup (list_eqb (ceqb G)) k (blocks G R xf) = Some T ->
+       st + len <= nth pos (block_shape G (indices G R xf) k) 0 ->
+       (forall s, In s (sectors G R x) -> fused_sector G ixs [g] s = k ->
+          disj (st, len) (sub_range G fi (group_charge G ixs s g) (group_subsector G s g))) ->
+       tslice R T pos st len = tzeros R (set_nth (block_shape G (indices G R xf) k) pos len)).
+Proof. exact stmt_layout. Qed.
+
+Theorem C05_unfuse_fuse_single_group_partial : forall (G : Symmetry) (R : Ring), GroupLaws G -> OrderLaws G ->
+  forall (x : aarray G R) (g : list nat),
+    wf_array G R x = true -> NoDup g -> Forall (fun ax => ax < ndim G R x) g -> 2 <= length g ->
+    let perm := fuse_perm (ndim G R x) [g] in
+    exists y,
+      a_unfuse G R (fuse_core G R x [g]) (fuse_position [g]) = Some y /\
+      indices G R y = permuted (dflt_index G) (indices G R x) perm /\
+      charge G R y = charge G R x /\
+      (forall s b, In (s, b) (blocks G R x) ->
+         lookup (list_eqb (ceqb G)) (permuted (ident G) s perm) (blocks G R y) = Some (ttranspose R b perm)) /\
+      (forall k t, In (k, t) (blocks G R y) ->
+         (exists s b, In (s, b) (blocks G R x) /\ k = permuted (ident G) s perm /\ t = ttranspose R b perm) \/
+         Forall (fun v => v = r0 R) (tdata t)) /\
+      (forall cs, coords_ok G (indices G R x) cs = true ->
+         sem G R y (permuted (ident G, 0) cs perm) = sem G R x cs).
+Proof. exact stmt_C. Qed.
+
+Theorem C05_a_fuse_single_group_partial : forall (G : Symmetry) (R : Ring), GroupLaws G -> OrderLaws G ->
+  forall (x : aarray G R) (g : list nat),
+    wf_array G R x = true -> NoDup g -> Forall (fun ax => ax < ndim G R x) g -> 2 <= length g ->
+    a_fuse G R x [g] = fuse_core G R x [g] /\ roundtrip_single_group G R x g.
+Proof. exact stmt_C_a_fuse. Qed.
+
+(* ---- full statements, NOT proved here ----
+   Missing relative to the _partial theorems above: (1) several disjoint groups in
+   one call (the fold of fuse_core then scatters along several axes at once and
+   the unfuse has to be iterated); (2) singlet groups (kept as they are) and empty
+   groups (expand_dims) through a_fuse; (3) arrays that already carry fused axes,
+   unfused again by a_unfuse_all; (4) the concat strategy and the fermionic signs,
+   which Model/Array.v does not model. *)
+Definition unfuse_axes (G : Symmetry) (R : Ring) (x : aarray G R) (k : nat) (pos : nat) : option (aarray G R) :=
+  (* unfuse the k consecutive fused axes starting at pos, last first *)
+  fold_right (fun ax acc => match acc with Some y => a_unfuse G R y ax | None => None end)
+             (Some x) (seq pos k).
+
+Definition C05_unfuse_fuse_full : Prop :=
+  forall (G : Symmetry) (R : Ring), GroupLaws G -> OrderLaws G ->
+  forall (x : aarray G R) (groups : list (list nat)),
+    wf_array G R x = true -> groups <> [] ->
+    Forall (fun g => 2 <= length g) groups ->
+    NoDup (concat groups) -> Forall (fun ax => ax < ndim G R x) (concat groups) ->
+    let perm := fuse_perm (ndim G R x) groups in
+    exists y,
+      unfuse_axes G R (fuse_core G R x groups) (length groups) (fuse_position groups) = Some y /\
+      indices G R y = permuted (dflt_index G) (indices G R x) perm /\
+      (forall s b, In (s, b) (blocks G R x) ->
+         lookup (list_eqb (ceqb G)) (permuted (ident G) s perm) (blocks G R y) = Some (ttranspose R b perm)) /\
+      (forall k t, In (k, t) (blocks G R y) ->
+         (exists s b, In (s, b) (blocks G R x) /\ k = permuted (ident G) s perm /\ t = ttranspose R b perm) \/
+         Forall (fun v => v = r0 R) (tdata t)) /\
+      (forall cs, coords_ok G (indices G R x) cs = true ->
+         sem G R y (permuted (ident G, 0) cs perm) = sem G R x cs).
+
+Definition C05_fused_indices_wf_full : Prop :=
+  forall (G : Symmetry) (R : Ring), GroupLaws G -> OrderLaws G ->
+  forall (x : aarray G R) (groups : list (list nat)),
+    wf_array G R x = true -> Forall (fun g => g <> []) groups ->
+    NoDup (concat groups) -> Forall (fun ax => ax < ndim G R x) (concat groups) ->
+    wf_array G R (a_fuse G R x groups) = true.
+
+Print Assumptions C05_Z2_order.
+Print Assumptions C05_Z4_order.
+Print Assumptions C05_U1_order.
+Print Assumptions C05_Z2Z2_order.
+Print Assumptions C05_U1U1_order.
+Print Assumptions C05_fused_chargemap_sorted.
+Print Assumptions C05_fused_extent_keys.
+Print Assumptions C05_fused_extents_partition.
+Print Assumptions C05_fused_extents_complete.
+Print Assumptions C05_fused_dual.
+Print Assumptions C05_fused_index_wf.
+Print Assumptions C05_ranges_partition.
+Print Assumptions C05_fused_sub_ranges_partition.
+Print Assumptions C05_get_tassign.
+Print Assumptions C05_get_tslice.
+Print Assumptions C05_assign_into_zeros.
+Print Assumptions C05_slice_of_assign_own.
+Print Assumptions C05_slice_of_assign_other.
+Print Assumptions C05_fuse_layout_single_group_partial.
+Print Assumptions C05_unfuse_fuse_single_group_partial.
+Print Assumptions C05_a_fuse_single_group_partial.
